@@ -136,7 +136,13 @@ def main(argv):
     import re as _re2
     def _parts(key):
         m = _re2.match(r"^(.*)\[_=([^\]]*)\](.*)$", key)
-        return (m.group(1), set(m.group(2).split(",")) - {""}, m.group(3)) if m else None
+        if m:
+            return (m.group(1), set(m.group(2).split(",")) - {""}, m.group(3))
+        # `..#child:unguarded=A,B`: the kinds printed without the parentheses they need; fewer of them is the listed finding, improved
+        m = _re2.match(r"^(.*:unguarded=)([^:\]]*)$", key)
+        if m and m.group(2) != "-":
+            return (m.group(1), set(m.group(2).split(",")) - {""}, "")
+        return None
     still = []
     for inst in viol:
         pi = _parts(inst["key"])
